@@ -46,6 +46,11 @@ CHECKS: dict[str, dict] = {
         technique="explicit-state BFS to a fixpoint over the real WriteFlowControl object (state rebuilt by replaying the event history, canonical state hashing) plus deviation-bounded schedule enumeration of the real asyncio stream/datagram adapters on fake sockets",
         text="Every reachable WriteFlowControl state (<= 3 waiters) satisfies: no waiter pending once resumed or lost, no leak in the waiter queue, suspended drains stay suspended while paused; on the real adapters a send returns only when its bytes/datagram left user space, suspended senders resume when the peer reads, fail on loss, and cancelling one does not strand the others.",
     ),
+    "C19": dict(
+        cat="exploration", ref="DESIGN.md §3 C19", engine="E2 vloop + mc/envsched.py",
+        technique="stateless schedule and fault enumeration on the real asyncio loop: completion of every connect attempt and one external cancel placed at every loop-iteration boundary and relative to the stagger timer (incl. exact coincidence), socket()/bind() faults per attempt",
+        text="All address lists up to the bound, all outcome vectors (connects / refused / hangs / socket() fails / bind() fails), all completion orders within the deviation bound: exactly one open socket is returned on success, every other created socket is closed, failure carries one error per attempt, cancellation closes everything including an already chosen winner, no attempt task survives.",
+    ),
 }
 
 NOT_YET: dict[str, str] = {}
